@@ -137,6 +137,16 @@ func evalReal(pc pcase) (res evalResult) {
 			break
 		}
 	}
+	kindsOf := func(rs []reqSeen) []string {
+		var ks []string
+		for _, r := range rs {
+			ks = append(ks, r.Kind)
+		}
+		return ks
+	}
+	if !contiguousRuns(kindsOf(mainPosts)) {
+		add("real-create-order:kind-not-contiguous", "install created resources in the order [%s]: a kind is resumed after another kind was started", reqNames(mainPosts))
+	}
 	severalKinds := false
 	for _, p := range mainPosts {
 		if p.Kind != mainPosts[0].Kind {
@@ -178,6 +188,9 @@ func evalReal(pc pcase) (res evalResult) {
 			add("real-delete-order:rank", "uninstall deleted resources in the order [%s]", reqNames(dels))
 			break
 		}
+	}
+	if !contiguousRuns(kindsOf(dels)) {
+		add("real-delete-order:kind-not-contiguous", "uninstall deleted resources in the order [%s]: a kind is resumed after another kind was started", reqNames(dels))
 	}
 	switch {
 	case len(res.Verdicts) > 0:
